@@ -55,7 +55,7 @@ type caseIn struct {
 	Closes  []bool  `json:"closes"` // server: per caller, does it CloseConnection after being admitted
 	Sched   []int   `json:"sched"`
 	Kind    string  `json:"kind"` // reg: tunnel | control | control-sm ; quota: code | mapping
-	Ops     [][]int `json:"ops"`  // reg: [0,id,created] register, [1,id] remove ; mapseq: [0] open, [1,k] close k-th arrival
+	Ops     [][]int `json:"ops"`  // reg: [0,id,created(,client)] register, [1,id] remove, [2,id,client] UpdateAuth ; mapseq: [0] open, [1,k] close k-th arrival
 	N       int     `json:"n"`
 	Trials  int     `json:"trials"`
 	Threads int     `json:"threads"`
@@ -322,10 +322,16 @@ func runReg(c caseIn) *caseOut {
 			case creg != nil:
 				cc := session.NewControlConnection(cid(id), nil, nil, "tcp")
 				cc.CreatedAt = epoch.Add(time.Duration(at) * time.Second)
+				if len(op) > 3 && op[3] > 0 { // a connection that arrives already authenticated as client op[3] (re-login)
+					cc.ClientID, cc.Authenticated = int64(op[3]), true
+				}
 				err = creg.Register(cc)
 			default:
 				cc := session.NewControlConnection(cid(id), nil, nil, "tcp")
 				cc.CreatedAt = epoch.Add(time.Duration(at) * time.Second)
+				if len(op) > 3 && op[3] > 0 {
+					cc.ClientID, cc.Authenticated = int64(op[3]), true
+				}
 				sm.RegisterControlConnection(cc) // logs the error; a refusal shows as "not registered"
 				if id != 0 && sm.GetControlConnection(cid(id)) != cc {
 					err = errors.New("not registered")
@@ -372,6 +378,27 @@ func runReg(c caseIn) *caseOut {
 			if id != 0 { // only now: the eviction check above must see the stamps as they were before this call
 				created[id] = at
 			}
+		} else if op[0] == 2 {
+			// UpdateAuth(id, client): the same client may end up authenticated on two registered connections
+			id, client := op[1], op[2]
+			var err error
+			switch {
+			case treg != nil:
+				err = treg.UpdateAuth(cid(id), fmt.Sprintf("t%d", client), "m1")
+			case creg != nil:
+				err = creg.UpdateAuth(cid(id), int64(client), "u")
+			default:
+				err = sm.UpdateControlConnectionAuth(cid(id), int64(client), "u")
+			}
+			if err != nil {
+				res = 1
+			}
+			if (err != nil) != !before[id] {
+				out.fail(c.Kind+"-updateauth-result", fmt.Sprintf("UpdateAuth(%d,%d) returned %v, connection registered: %v", id, client, err, before[id]))
+			}
+			if after := keys(); !sameSet(before, after) {
+				out.fail(c.Kind+"-updateauth-changed-keys", fmt.Sprintf("UpdateAuth(%d,%d) changed the set of registered connections %v -> %v", id, client, sortedInts(before), sortedInts(after)))
+			}
 		} else {
 			id := op[1]
 			switch {
@@ -381,6 +408,9 @@ func runReg(c caseIn) *caseOut {
 				creg.Remove(cid(id))
 			default:
 				sm.RemoveControlConnection(cid(id))
+			}
+			if keys()[id] {
+				out.fail(c.Kind+"-remove-left-entry", fmt.Sprintf("Remove(%d) returned but the connection is still registered", id))
 			}
 		}
 		after := keys()
